@@ -525,4 +525,49 @@ def exOps : List Op :=
 example : ((list (run {} exOps)).map (fun i => (i.id, i.name)), (run {} exOps).lastID, (run {} exOps).events) =
     ([(3, 6)], 3, [.added 1 5, .added 3 6, .removed 1 5]) := by decide
 
+/-! ### why the check and the write of an update are one critical section -/
+
+/-- `UpdateServiceInfo` cut in two: the validation, the look-up and the name check … -/
+def updateCheck (d : Dir) (i : Info) : Bool :=
+  checkInfo i && (match d.services i.id with | some old => old.name == i.name | none => false)
+
+/-- … and the write, whatever has happened in between (seeded change C15l) -/
+def updateWrite (d : Dir) (i : Info) : Dir := { d with services := put d.services i.id (some i) }
+
+/-- the update of the model is the two halves with nothing in between -/
+theorem update_is_check_then_write (d : Dir) (i : Info) :
+    update d i = if updateCheck d i then (updateWrite d i, true) else (d, false) := by
+  unfold update updateCheck updateWrite
+  cases hc : checkInfo i <;> simp only [Bool.not_true, Bool.not_false, Bool.false_eq_true, if_true, if_false, Bool.false_and, Bool.true_and]
+  cases hs : d.services i.id with
+  | none => simp
+  | some old => cases hn : (old.name == i.name) <;> simp [bne, hn]
+
+/-- after the removal an update of that service is refused and changes nothing: there is nothing to update -/
+theorem update_after_unregister_is_refused (d : Dir) (i : Info) (h : (unregister d i.id).2 = true) :
+    update (unregister d i.id).1 i = ((unregister d i.id).1, false) := by
+  have gone : (unregister d i.id).1.services i.id = none := by
+    unfold unregister
+    cases hs : d.services i.id with
+    | some o => simp [put]
+    | none =>
+      cases hg : d.staging i.id with
+      | some o => simp [hs]
+      | none => simp [hs]
+  unfold update
+  split
+  · rfl
+  · simp [gone]
+
+/-- an unregistration between the two halves: both report success, and the service that was removed is found and
+    listed again — no second `serviceAdded`, its name taken for good -/
+theorem split_update_revives :
+    let d0 := run {} [.register ⟨5, 0, 1, 1, [1]⟩, .ready 1]
+    let i : Info := ⟨5, 1, 1, 1, [2]⟩
+    let d1 := (unregister d0 1).1
+    let d2 := updateWrite d1 i
+    updateCheck d0 i = true ∧ (unregister d0 1).2 = true ∧ lookup d1 5 = none ∧
+      lookup d2 5 = some i ∧ d2.events = [.added 1 5, .removed 1 5] ∧ (register d2 ⟨5, 0, 1, 1, [1]⟩).2 = none := by
+  decide
+
 end QiVerif.C15
